@@ -115,6 +115,8 @@ fn quick_grid() -> Vec<GridPoint> {
         // unusual but legal: delay far larger than the window; three players on one peer
         GridPoint { t: "1+1", w: 1, d: 16, sparse: false, pred: RepeatLast, prog: Changing, lat: 1 },
         GridPoint { t: "3+1", w: 12, d: 7, sparse: true, pred: Default, prog: Runs, lat: 1 },
+        // a long link: five rounds one way, wide window
+        GridPoint { t: "1+1+1", w: 12, d: 2, sparse: false, pred: RepeatLast, prog: Changing, lat: 5 },
     ]
 }
 
@@ -158,7 +160,18 @@ pub fn core_parts(rep: &mut Report, props: &[&str], checks: u32) {
         let mut scns = Vec::new();
         let grid = if thorough { full_grid(false) } else { quick_grid() };
         // thorough: the full grid gets k<=1; the pairwise selection gets k<=2 with a wider window
+        let mut long_links = Vec::new();
         for g in &grid {
+            if !thorough && g.lat >= 5 {
+                // many more packets in flight: k<=1 in the quick tier (below)
+                let mut s = gp_scn("core-D-long-link", g);
+                s.horizon = 16;
+                s.probe = 50;
+                s.checks = checks;
+                s.fault = packet_faults(3, 4, CLASS_INPUT | CLASS_INPUT_ACK, PACKET_FATES.to_vec(), 1);
+                long_links.push(s);
+                continue;
+            }
             let mut s = gp_scn("core-D", g);
             s.horizon = 14;
             s.probe = 40;
@@ -168,7 +181,7 @@ pub fn core_parts(rep: &mut Report, props: &[&str], checks: u32) {
         }
         // games that save their states without a checksum (the cell contract does not depend on
         // checksums): the same window on the full-saving configurations
-        for g in quick_grid().iter().filter(|g| !g.sparse) {
+        for g in quick_grid().iter().filter(|g| !g.sparse && (thorough || g.lat < 5)) {
             let mut s = gp_scn("core-D-nochecksum", g);
             s.no_checksum = (0..s.peers.len()).collect();
             s.horizon = 14;
@@ -178,7 +191,7 @@ pub fn core_parts(rep: &mut Report, props: &[&str], checks: u32) {
             scns.push(s);
         }
         // the same deviations from the very first round (before any remote input has arrived)
-        for g in quick_grid().iter() {
+        for g in quick_grid().iter().filter(|g| thorough || g.lat < 5) {
             let mut s = gp_scn("core-D0", g);
             s.horizon = 8;
             s.probe = 40;
@@ -191,6 +204,11 @@ pub fn core_parts(rep: &mut Report, props: &[&str], checks: u32) {
         let out = explore(&scns, &cfg, judge);
         rep.absorb("A: packet drop/dup/delay(+2) and peer stall, window after 3 clean rounds and window from round 0", out, props,
             json!({"k": k, "window_rounds": if thorough {5} else {4}, "classes": "Input,InputAck", "fates": "drop,dup,delay+2", "tick": "stall", "configs": scns.len(), "horizon_rounds": 14, "probe_rounds": 40}));
+        if !long_links.is_empty() {
+            let cfg = ExploreCfg { k: Some(1), wall: Duration::from_secs(40), ..Default::default() };
+            let out = explore(&long_links, &cfg, judge);
+            rep.absorb("A': the same window on the long-link configuration (five rounds one way), k<=1", out, props, json!({"k": 1, "configs": long_links.len()}));
+        }
         if thorough {
             let mut scns = Vec::new();
             for g in &quick_grid() {
@@ -258,7 +276,7 @@ pub fn core_parts(rep: &mut Report, props: &[&str], checks: u32) {
                 }
             }
         }
-        let cfg = ExploreCfg { k: Some(0), wall: Duration::from_secs(if thorough { 900 } else { 40 }), ..Default::default() };
+        let cfg = ExploreCfg { k: Some(0), wall: Duration::from_secs(if thorough { 900 } else { 40 }), variants: crate::explore::CORE_MENU, variant_every: if thorough { 1 } else { 3 }, ..Default::default() };
         let n = scns.len();
         let out = explore(&scns, &cfg, judge);
         rep.absorb("B: link outages between the first two peers, every length 1..=12, start 0|2|5, a->b | b->a | both", out, props,
@@ -302,6 +320,24 @@ pub fn core_parts(rep: &mut Report, props: &[&str], checks: u32) {
                 scns.push(s);
             }
         }
+        // other frame rates (the retransmission / keep-alive / quality-report timers are in
+        // milliseconds, so their phase against the ticks changes) and long latencies
+        for (gi, g) in quick_grid().iter().enumerate() {
+            let (fps, lat) = [(30usize, 1), (144, 3), (20, 0), (60, 6), (120, 9)][gi % 5];
+            if g.w > 0 && (lat as usize) > 3 * g.w.max(4) {
+                continue;
+            }
+            let mut s = gp_scn("core-verylong-fps", g);
+            s.fps = fps;
+            s.round_us = 1_000_000 / fps as u64;
+            s.latency = lat;
+            s.background = Background { loss_every: 5, delay_every: 9, stall_every: 17 };
+            s.name = format!("{} fps={fps} latency={lat} {} rounds", s.name, rounds / 2);
+            s.horizon = rounds / 2;
+            s.probe = 60;
+            s.checks = checks;
+            scns.push(s);
+        }
         // all-local hosts with a spectator, and a single player with a spectator
         for t in ["2", "1"] {
             for w in [0usize, 2, 8] {
@@ -313,7 +349,7 @@ pub fn core_parts(rep: &mut Report, props: &[&str], checks: u32) {
                 scns.push(s);
             }
         }
-        let cfg = ExploreCfg { k: Some(0), wall: Duration::from_secs(if thorough { 600 } else { 40 }), ..Default::default() };
+        let cfg = ExploreCfg { k: Some(0), wall: Duration::from_secs(if thorough { 600 } else { 40 }), variants: crate::explore::CORE_MENU, variant_every: if thorough { 1 } else { 3 }, ..Default::default() };
         let out = explore(&scns, &cfg, judge);
         rep.absorb("L: long histories under periodic background loss/delay/stalls (every ring buffer wraps many times), incl. all-local hosts with a spectator", out, props, json!({"k": 0, "rounds": rounds, "scenarios": scns.len()}));
     }
@@ -348,7 +384,7 @@ pub fn core_parts(rep: &mut Report, props: &[&str], checks: u32) {
                 }
             }
         }
-        let cfg = ExploreCfg { k: Some(0), wall: Duration::from_secs(if thorough { 600 } else { 30 }), ..Default::default() };
+        let cfg = ExploreCfg { k: Some(0), wall: Duration::from_secs(if thorough { 600 } else { 30 }), variants: crate::explore::CORE_MENU, variant_every: if thorough { 1 } else { 3 }, ..Default::default() };
         let out = explore(&scns, &cfg, judge);
         rep.absorb("D: unequal tick rates (one peer ticks every 2nd/3rd round) and late starters (first tick 1..11 rounds after the others)", out, props, json!({"k": 0, "scenarios": scns.len()}));
     }
@@ -535,7 +571,7 @@ fn stall_parts(rep: &mut Report, props: &[&str], checks: u32, windows: &[usize],
         }
     }
     let n = scns.len();
-    let cfg = ExploreCfg { k: Some(0), wall: Duration::from_secs(if thorough { 900 } else { 40 }), ..Default::default() };
+    let cfg = ExploreCfg { k: Some(0), wall: Duration::from_secs(if thorough { 900 } else { 40 }), variants: crate::explore::CORE_MENU, variant_every: if thorough { 1 } else { 3 }, ..Default::default() };
     let out = explore(&scns, &cfg, judge);
     rep.absorb("S: one peer starved of remote input (Input-class outage b->a of every length, every start), windows incl. lockstep", out, props,
         json!({"k": 0, "windows": windows, "delays": [0,2,5], "outage_len_max": format!("3w+{max_extra}"), "scenarios": n}));
@@ -555,13 +591,37 @@ fn lockstep_wait_part(rep: &mut Report, props: &[&str], checks: u32) {
                 s.probe = 30;
                 s.checks = checks;
                 s.fault = packet_faults(2, 5, CLASS_INPUT | CLASS_INPUT_ACK, vec![Fate::Drop, Fate::Delay(2)], 1);
+                // explicit timeouts: zero (documented as equivalent to advance_frame), shorter and
+                // longer than a frame period
+                if d == 0 {
+                    for ms in [0u64, 5, 40] {
+                        let mut x = s.clone();
+                        x.peers.iter_mut().for_each(|p| p.wait_timeout_ms = Some(ms));
+                        x.name = format!("{} wait-timeout={ms}ms", x.name);
+                        scns.push(x);
+                    }
+                }
                 scns.push(s);
             }
         }
     }
+    // the wait calls on sessions that are not in lockstep mode return at once
+    for (w, ms) in [(2usize, None), (1, Some(40u64)), (8, Some(0))] {
+        let mut s = base_scn("lockstep-wait-rollback-session", "1+1", w, 0, false, Pred::RepeatLast, Program::Changing, 1);
+        for p in s.peers.iter_mut() {
+            p.use_wait = true;
+            p.wait_timeout_ms = ms;
+        }
+        s.name = format!("{} wait-timeout={ms:?}", s.name);
+        s.horizon = 12;
+        s.probe = 30;
+        s.checks = checks;
+        s.fault = packet_faults(2, 5, CLASS_INPUT | CLASS_INPUT_ACK, vec![Fate::Drop, Fate::Delay(2)], 1);
+        scns.push(s);
+    }
     let cfg = ExploreCfg { k: Some(2), wall: Duration::from_secs(if rep.thorough() { 600 } else { 30 }), ..Default::default() };
     let out = explore(&scns, &cfg, judge);
-    rep.absorb("W: lockstep sessions driven through advance_frame_with_wait (virtual time advances inside the wait), k<=2", out, props,
+    rep.absorb("W: lockstep sessions driven through advance_frame_with_wait / advance_frame_with_wait_timeout(0, 5, 40 ms) (virtual time advances inside the wait), and the same calls on rollback sessions, k<=2", out, props,
         json!({"k": 2, "configs": scns.len()}));
 }
 
